@@ -32,7 +32,7 @@ def make_shape(rng):
             b = [(ox, oy), (ox + w, oy + t), (ox + 2 * w, oy), (ox + 2 * w, oy + h), (ox + w, oy + h + t)]
         k = rng.randrange(len(b)); b = b[k:] + b[:k]
     else: b = G.lattice_polygon(rng, ncells=rng.randint(3, 16), w=7, h=7)[0]
-    nh = rng.choice([0, 0, 1, 2, 4, 6]) if fam in ('convex', 'star', 'bigstar') else (rng.choice([0, 1, 2, 3]) if fam == 'lobes' else 0)
+    nh = rng.choice([0, 1, 2, 4, 6]) if fam in ('convex', 'star', 'bigstar') else (rng.choice([1, 2, 3]) if fam == 'lobes' else 0)
     hs = G.holes_in(rng, b, nh) if nh else []
     if rng.random() < 0.5: b = b[::-1]
     return fam, b, hs
@@ -151,7 +151,7 @@ def fam_predicates(ctx, rng):
             ctx.violation('tri.pred:point_in_triangle', '_point_in_triangle=%r expected %r' % (inside, exp), dict(desc, p=p))
 
 
-FAMILIES = [(fam_earcut, 130), (fam_predicates, 200)]
+FAMILIES = [(fam_earcut, 220), (fam_predicates, 200)]
 
 
 def explore(ctx):
